@@ -73,11 +73,14 @@ Definition et0_outs (m : et0_out (T:=float)) : list float :=
 Definition et0_check (c : et0_in (T:=float) * otab * et0_obs) : nat :=
   let '(x, t, o) := c in
   let m := et0_struct (orc_of_table PrimFloat.nan t) constsF x in
-  let m0 := et0_struct (orc_of_table PrimFloat.one t) constsF x in
   let b (ok : bool) (v : nat) := if ok then 0%nat else v in
-  (b (float_same (to_precap m) (tb_precap o)) 1 + b (float_same (to_et0 m) (tb_et0 o)) 2 +
-   b (float_same (to_satdef m) (tb_satdef o)) 4 + b (float_same (to_rstom m) (tb_rstom o)) 8 +
-   b (float_same (to_wind m) (tb_wind o)) 16 + b (float_same (to_sund m) (tb_sund o)) 32 +
-   b (float_same (to_fkc m) (tb_fkc o)) 64 + b (float_same (to_radsum m) (tb_radsum o)) 128 +
-   b (float_same (pot_cap (ti_crop x) (to_precap m)) (tb_capped o)) 256 +
-   b (floats_same (et0_outs m) (et0_outs m0)) 512)%nat.
+  let v :=
+    (b (float_same (to_precap m) (tb_precap o)) 1 + b (float_same (to_et0 m) (tb_et0 o)) 2 +
+     b (float_same (to_satdef m) (tb_satdef o)) 4 + b (float_same (to_rstom m) (tb_rstom o)) 8 +
+     b (float_same (to_wind m) (tb_wind o)) 16 + b (float_same (to_sund m) (tb_sund o)) 32 +
+     b (float_same (to_fkc m) (tb_fkc o)) 64 + b (float_same (to_radsum m) (tb_radsum o)) 128 +
+     b (float_same (pot_cap (ti_crop x) (to_precap m)) (tb_capped o)) 256)%nat in
+  (* a missing key yields NaN; only when something differs the model is run again with another value for a
+     miss to tell a missing oracle entry from a genuine disagreement *)
+  if Nat.eqb v 0 then 0%nat
+  else (v + b (floats_same (et0_outs m) (et0_outs (et0_struct (orc_of_table PrimFloat.one t) constsF x))) 512)%nat.
